@@ -87,7 +87,7 @@ DEP_PATHS = ["this.x", "this._.x", "this._._.x", "this._root.x", "this._params.k
 def gen_shape(rng, depth, in_repeater=False, first=False):
     c = rng.random()
     if depth <= 0 or c < 0.2:
-        return rng.choice([["spy"], ["spy"], ["x"], ["dep", rng.choice(DEP_PATHS)]])
+        return rng.choice([["spy"], ["spy"], ["x"], ["x", "d"], ["dep", rng.choice(DEP_PATHS)]])
     if c < 0.62:
         kind = rng.choice(["struct", "struct", "seq", "focused", "union", "lazystruct"])
         n = rng.randint(1, 3)
@@ -97,9 +97,12 @@ def gen_shape(rng, depth, in_repeater=False, first=False):
         if kind in ("union", "focused"):
             # Union builds only its first member, FocusedSeq builds every other member from None: data member first, spies after
             ms = [["x"]] + [m for m in ms if m[0] in ("spy",)][:2] + [["spy"]]
+            if kind == "union" and rng.random() < 0.4:
+                ms = [["spy"]] + ms           # ... or a member that builds from nothing first: then that one is what build runs
         if kind == "lazystruct":
-            # while parsing, LazyStruct only *sizes* its members: keep them to leaves (nested structures would be sized, not parsed)
-            ms = [m for m in ms if m[0] in ("x", "spy")] or [["spy"]]
+            # while parsing, LazyStruct only *sizes* its members (leaves and plain nested structures; the latter are entered
+            # through their sizeof while the call in progress is a parse)
+            ms = [(m if m[0] in ("x", "spy") else gen_sizable(rng, depth - 1)) for m in ms] or [["spy"]]
             if sum(1 for m in ms if m[0] == "x") > 1:
                 ms = [m for m in ms if m[0] != "x"] + [["x"]]
         return [kind, ms]
@@ -112,6 +115,27 @@ def gen_shape(rng, depth, in_repeater=False, first=False):
     # greedy / until elements must start with the data byte so that the terminating failed iteration activates no spy
     elem = ["struct", [["x"], elem]] if elem[0] != "struct" else ["struct", [["x"]] + elem[1]]
     return ["greedy" if r < 0.75 else "until", n, elem, discard]
+
+
+def gen_sizable(rng, depth):
+    """a nested structure with a static size: Struct/Sequence of data bytes, spies and such structures"""
+    ms = []
+    for i in range(rng.randint(1, 3)):
+        c = rng.random()
+        if c < 0.3 and not any(m[0] == "x" for m in ms):
+            ms.append(["x"])
+        elif c < 0.8 or depth <= 1:
+            ms.append(["spy"])
+        else:
+            ms.append(gen_sizable(rng, depth - 1))
+    return [rng.choice(["struct", "seq"]), ms]
+
+
+DV = 2          # what a derived data member ( ["x", "d"] = Default(Byte, DV), built from nothing ) holds
+
+
+def xval(node, key):
+    return DV if len(node) > 1 else xvalue(key)
 
 
 def xvalue(pathkey):
@@ -151,11 +175,13 @@ def simulate(shape, op):
             return sc.get("_index", MISSING if hops == len(chain) - 1 else None)
         return MISSING
 
-    def walk(node, chain, key):
+    def walk(node, chain, key, sizing=False):
+        # sizing: inside a member that a parsing LazyStruct skips by its size (entered through _sizeof: nothing is read, no
+        # member becomes visible; the bytes are in the input all the same)
         k = node[0]
         cur = chain[0]
         if k == "x":
-            v = xvalue(key)
+            v = xval(node, key)
             if op != "sizeof":
                 out.append(v)
             return v
@@ -181,18 +207,18 @@ def simulate(shape, op):
             members = node[1]
             if op == "build" and k in ("struct", "lazystruct", "union"):
                 for i, m in enumerate(members):          # all supplied siblings are visible from the start
-                    if m[0] == "x":
+                    if m[0] == "x" and len(m) == 1:
                         sc["x"] = xvalue(key + (i,))
             if op == "build" and k == "focused" and members[0][0] == "x":
                 sc["x"] = xvalue(key + (0,))             # the focused value is put into the scope up front
             if op == "build" and k == "union":
-                members = members[:1]                    # Union builds the first member it has a value for
+                members = members[:1]                    # Union builds the first member it has a value for (or that builds from nothing)
             for i, m in enumerate(members):
                 if k == "lazystruct" and op == "parse" and m[0] == "x":
-                    out.append(xvalue(key + (i,)))       # skipped by its size: not parsed, not entered into the context
+                    out.append(xval(m, key + (i,)))      # skipped by its size: not parsed, not entered into the context
                     continue
-                v = walk(m, ch2, key + (i,))
-                if m[0] == "x" and op != "sizeof":
+                v = walk(m, ch2, key + (i,), sizing or (k == "lazystruct" and op == "parse"))
+                if m[0] == "x" and op != "sizeof" and not sizing:
                     sc["x"] = v
             return None
         n = node[1]
@@ -220,7 +246,7 @@ def mk_construct(shape, Spy, log, sidc):
     import construct as C
     k = shape[0]
     if k == "x":
-        return C.Byte
+        return C.Byte if len(shape) == 1 else C.Default(C.Byte, DV)
     if k == "spy":
         return Spy(next(sidc), log)
     if k == "dep":
@@ -246,7 +272,7 @@ def mk_construct(shape, Spy, log, sidc):
         if k == "focused":
             return C.FocusedSeq(ms[0].name, *ms)
         if k == "union":
-            return C.Union(0, *ms)
+            return C.Union([i for i, m in enumerate(shape[1]) if m[0] == "x"][0], *ms)
         if k == "lazystruct":
             return C.LazyStruct(*ms)
     n, elem, discard = shape[1], shape[2], shape[3]
@@ -274,7 +300,7 @@ def build_value(shape, key=()):
     """the value handed to build: x members carry xvalue(position), dependent members a placeholder filled in later"""
     k = shape[0]
     if k == "x":
-        return xvalue(key)
+        return xvalue(key) if len(shape) == 1 else None
     if k == "spy":
         return None
     if k == "dep":
@@ -284,6 +310,8 @@ def build_value(shape, key=()):
             return [build_value(m, key + (i,)) for i, m in enumerate(shape[1])]
         d = {}
         for i, m in enumerate(shape[1]):
+            if m[0] == "x" and len(m) > 1:
+                continue                       # derived: not supplied
             d["x" if m[0] == "x" else "m%d" % i] = build_value(m, key + (i,))
         if k == "focused":
             first = shape[1][0]
@@ -497,6 +525,28 @@ def enumerate_small():
                         out.append([rep, 2, [ok if (rep == "array" or ok in ("struct", "seq")) else "struct", [["x"], a, ["spy"]]], discard])
                         if ok in ("struct", "seq"):
                             out.append([ok, [["x"], ["array", 2, [rep, 2, ["struct", [["x"], a]], discard], False]]])
+    # a Union whose first member builds from nothing, alone and inside every repeater (build runs exactly that member)
+    for rep in ("array", "greedy", "until"):
+        for discard in (False, True):
+            out.append([rep, 2, ["struct", [["x"], ["union", [["spy"], ["x"], ["spy"]]]]], discard])
+            out.append(["struct", [["x"], [rep, 2, ["struct", [["x"], ["union", [["spy"], ["x"]]], ["struct", [["union", [["spy"], ["x"]]]]]]], discard]]])
+    out.append(["array", 3, ["union", [["spy"], ["x"]]], False])
+    out.append(["union", [["spy"], ["x"], ["spy"]]])
+    # members that build derives by itself become visible to later siblings with the value actually built
+    for ok in ("struct", "seq", "lazystruct"):
+        for a in leaves:
+            if ok == "lazystruct" and a[0] != "spy":
+                continue
+            out.append([ok, [["x", "d"], a, ["spy"]]])
+            out.append([ok, [["spy"], ["x", "d"], ["spy"], a]])
+            out.append(["struct", [["x"], [ok, [["x", "d"], ["spy"], ["struct", [a, ["spy"]]] if ok != "lazystruct" else ["spy"]]]]])
+            out.append(["array", 2, [ok, [["x", "d"], a, ["spy"]]], False])
+    # plain nested structures inside a LazyStruct: entered through sizeof while parsing
+    for inner in (["struct", [["spy"], ["x"], ["spy"]]], ["seq", [["spy"], ["struct", [["x"], ["spy"]]]]], ["struct", [["struct", [["seq", [["spy"]]]]], ["x"]]]):
+        out.append(["lazystruct", [["x"], inner, ["spy"]]])
+        out.append(["lazystruct", [inner, ["seq", [["spy"]]]]])
+        out.append(["struct", [["x"], ["lazystruct", [["spy"], inner]]]])
+        out.append(["array", 2, ["lazystruct", [["x"], inner]], False])
     return out
 
 
